@@ -9,8 +9,10 @@ addresses like loopback", "… to an empty host name …", "… matches well-kno
 case-insensitively", "… checks IP address literals sent as domain names", "fix: socks5 UDP associate
 checks the destination of every relayed packet").
 
-External library calls are parameters: `parseIP` is `net.ParseIP` on the text of a domain-typed
-destination (the harness passes Go's own answer); CIDR strings are pre-parsed by `net.ParseCIDR`
+External library calls are parameters: `parseIP` is `net.ParseIP` (the harness passes Go's own answer
+for the text the model asks about: the domain-typed destination with its IPv6 zone cut off, as
+`parseIPLiteral` does since "fix: classify a zoned IPv6 literal sent as a domain name by its address");
+`resolve` is the server's resolver followed by `SelectIPFromList`; CIDR strings are pre-parsed by `net.ParseCIDR`
 into network number and mask; the pseudo-random choice among a rule's proxy names is represented
 by the list of all possible outcomes.
 -/
@@ -123,6 +125,15 @@ def isWellKnownV6 (name : Name) : Bool := wellKnownV6.any (foldEq name)
 def parsedLoopback4 : IP := v4InV6Prefix ++ ipv4loopback
 def parsedLoopback6 : IP := ipv6loopback
 
+/-- `parseIPLiteral`: `if i := strings.IndexByte(s, '%'); i >= 0 { s = s[:i] }` — everything from the
+    first `%` (0x25) on is an IPv6 zone and is ignored, as the resolver ignores it -/
+def cutZone : Name → Name
+  | [] => []
+  | b :: t => if b = 0x25 then [] else b :: cutZone t
+
+/-- `parseIPLiteral(s) = net.ParseIP(s without zone)` -/
+def parseIPLiteral (parseIP : Name → Option IP) (s : Name) : Option IP := parseIP (cutZone s)
+
 /-! ## configuration -/
 
 inductive Action
@@ -170,7 +181,7 @@ def checkedIP (parseIP : Name → Option IP) (req : Request) : Option IP :=
   if req.dst.ip.isEmpty && !req.dst.fqdn.isEmpty then
     if isWellKnownV4 req.dst.fqdn then some parsedLoopback4
     else if isWellKnownV6 req.dst.fqdn then some parsedLoopback6
-    else parseIP req.dst.fqdn          -- an IP literal sent as a domain name; `none`: ordinary name
+    else parseIPLiteral parseIP req.dst.fqdn   -- an IP literal (zone ignored) sent as a domain name; `none`: ordinary name
   else if req.dst.ip.isEmpty then
     if req.cmd ≠ connectCmd then none else some parsedLoopback4   -- empty host
   else some req.dst.ip
@@ -339,5 +350,105 @@ def relayDatagram (cfg : Config) (parseIP : Name → Option IP) (envUser : Optio
     else if dst.ip.length = 4 ∨ dst.ip.length = 16 then .send (.ip dst.ip dst.port)   -- resolveSocks5UDPAddr
     else if !dst.fqdn.isEmpty then .send (.name dst.fqdn dst.port)
     else .unresolvable
+
+/-! ## a whole UDP association: the relay loop over a SEQUENCE of datagrams
+
+`runUDPAssociateLoop` (packet-over-stream mode) and `runUDPAssociateDatagramLoop` (datagram mode) are loops:
+each iteration parses one datagram of the client, asks the destination filter, resolves, remembers the
+destination (`addrMap.Store` / `targetAddrs[...]`) and writes. The only state an iteration leaves behind is
+(a) whether the loop is still running — the packet-over-stream loop RETURNS at the first datagram it cannot
+parse, the datagram loop skips it — and (b) the remembered destinations, which are written only after the
+filter has let the datagram pass and are read only by the reply direction. -/
+
+inductive RelayMode
+  | stream | datagram
+deriving DecidableEq, Repr
+
+/-- what happened to one datagram the client handed to the relay -/
+inductive RelayEv
+  | notRead                 -- the relay loop had already returned
+  | did (r : Relay)
+deriving DecidableEq, Repr
+
+structure RelaySt where
+  ended : Bool := false
+  remembered : List Target := []
+deriving DecidableEq, Repr
+
+/-- one iteration of the relay loop -/
+def relayStep (mode : RelayMode) (cfg : Config) (parseIP : Name → Option IP) (envUser : Option Name)
+    (st : RelaySt) (pkt : List UInt8) : RelaySt × RelayEv :=
+  if st.ended then (st, .notRead) else
+  match relayDatagram cfg parseIP envUser pkt with
+  | .invalid => ({ st with ended := mode == .stream }, .did .invalid)
+  | .send t => ({ st with remembered := t :: st.remembered }, .did (.send t))
+  | r => (st, .did r)
+
+/-- the loop: the events, in order, and the state it ends in -/
+def relayRun (mode : RelayMode) (cfg : Config) (parseIP : Name → Option IP) (envUser : Option Name) :
+    RelaySt → List (List UInt8) → List RelayEv × RelaySt
+  | st, [] => ([], st)
+  | st, pkt :: rest =>
+    let (st', ev) := relayStep mode cfg parseIP envUser st pkt
+    let (evs, fin) := relayRun mode cfg parseIP envUser st' rest
+    (ev :: evs, fin)
+
+/-! ## name resolution: the address that is finally connected / written to
+
+`handleRequest` resolves a non-empty FQDN with the server's resolver (`Resolver.LookupIP` then
+`common.SelectIPFromList`) BEFORE it dispatches on the command, stores the result in `dst.IP`, and
+`handleConnect` dials `AddrSpec.String()`, which prefers the IP. The UDP relays call
+`resolveSocks5UDPAddr` after the filter. `resolve n = none`: lookup error, empty answer, or no address
+satisfying the dual-stack preference. The resolved address is NOT classified again. -/
+
+inductive Dialled
+  | addr (ip : IP) (port : Nat)    -- `DialContext("tcp", "ip:port")` / `WriteToUDP(payload, ip:port)`
+  | localPort (port : Nat)         -- `":port"` (empty host, no address)
+  | unresolved                     -- nothing usable from the resolver
+deriving DecidableEq, Repr
+
+def dialled (resolve : Name → Option IP) : Target → Dialled
+  | .ip ip port => .addr ip port
+  | .name n port =>
+    match resolve n with
+    | some ip => .addr ip port
+    | none => .unresolved
+  | .emptyHost port => .localPort port
+
+inductive ServedR
+  | noReply
+  | reply (code : UInt8)
+  | dial (d : Dialled)                      -- DIRECT CONNECT: this is what `DialContext` gets
+  | associate
+  | forward (choices : List (Option Nat))
+deriving DecidableEq, Repr
+
+/-- `serverServeConn` after authentication, with the resolution step of `handleRequest`: for a DIRECT
+    decision any domain-typed destination is resolved first — whatever the command — and a failed
+    resolution is answered 04 (host unreachable; 03 when no address satisfies the dual-stack
+    preference — both are "nothing dialled") -/
+def serveRequestR (cfg : Config) (parseIP : Name → Option IP) (resolve : Name → Option IP)
+    (envUser : Option Name) (data : List UInt8) : ServedR :=
+  match parseRequest data with
+  | .error _ =>
+    -- unreadable request: 08 for an unknown address type, otherwise closed without a reply
+    match serveRequest cfg parseIP envUser data with
+    | .reply c => .reply c
+    | _ => .noReply
+  | .ok req =>
+    let unresolvable := !req.dst.fqdn.isEmpty && (resolve req.dst.fqdn).isNone
+    match serveRequest cfg parseIP envUser data with
+    | .noReply => .noReply
+    | .forward cs => .forward cs
+    | .reply c => if c = 2 then .reply 2 else if unresolvable then .reply 4 else .reply c
+    | .connect t => if unresolvable then .reply 4 else .dial (dialled resolve t)
+    | .associate => if unresolvable then .reply 4 else .associate
+
+/-- one relayed datagram, down to the address `WriteToUDP` gets -/
+def relayDialled (cfg : Config) (parseIP : Name → Option IP) (resolve : Name → Option IP)
+    (envUser : Option Name) (pkt : List UInt8) : Option Dialled :=
+  match relayDatagram cfg parseIP envUser pkt with
+  | .send t => some (dialled resolve t)
+  | _ => none
 
 end Mieru.Egress
